@@ -534,6 +534,21 @@ def oversize_table(spec):
                 for t in range(cnt):
                     atoms.append(atom(k + 1, names[c], 1000 * part + t // 20 + 1, k))
                     k += 1
+    elif kind in ("ensemble", "ensemble-chains"):
+        # an ensemble handed over whole (not split into models first): n models of a three-chain complex with
+        # two-character chain names, or two models of n such chains. The chain limit of the format counts distinct
+        # chain names, not chains times models; one TER per chain per model does take a serial each
+        models, names = (n, ["AA", "BB", "CC"]) if kind == "ensemble" else (2, [alphabet[k % 62] + alphabet[k // 62] for k in range(n)])
+        k = 0
+        for m in range(1, models + 1):
+            for c, ch in enumerate(names):
+                for r in range(2):
+                    for t in range(2):
+                        a = atom(c * 4 + r * 2 + t + 1, ch, r + 1, k)
+                        a["model"] = m
+                        a["name"], a["element"] = ("P", "P") if t == 0 else ("C4'", "C")
+                        atoms.append(a)
+                        k += 1
     else:
         raise HarnessError(kind)
     return atoms
@@ -618,7 +633,8 @@ def plan(tier, seed):
         specs = [{"kind": "tables", "examples": 50, "seed": seed * 1000 + k} for k in range(14)]
         specs += [{"kind": "oversize", "cases": [["chains", 63]]}, {"kind": "oversize", "cases": [["chains", 62], ["residues", 10000]]},
                   {"kind": "oversize", "cases": [["residues-icode", 10000]]}, {"kind": "oversize", "cases": [["residues-icode", 9999]]},
-                  {"kind": "oversize", "cases": [["atoms-runs", 99995]]}]
+                  {"kind": "oversize", "cases": [["atoms-runs", 99995]]},
+                  {"kind": "oversize", "cases": [["ensemble", 22], ["ensemble", 4], ["ensemble-chains", 40], ["ensemble-chains", 62], ["ensemble-chains", 63]]}]
         specs += [{"kind": "splitter", "examples": 30, "seed": seed * 1000 + 200 + k} for k in range(4)]
         specs += [{"kind": "unifier", "examples": 20, "seed": seed * 1000 + 300 + k} for k in range(4)]
     else:
@@ -627,7 +643,8 @@ def plan(tier, seed):
                   {"kind": "oversize", "cases": [["residues", 10000], ["residues", 9999]]},
                   {"kind": "oversize", "cases": [["residues-icode", 10000], ["residues-icode", 10001]]}, {"kind": "oversize", "cases": [["residues-icode", 9999]]},
                   {"kind": "oversize", "cases": [["atoms", 100000]]}, {"kind": "oversize", "cases": [["atoms-runs", 99995]]},
-                  {"kind": "oversize", "cases": [["atoms-runs", 99990]]}, {"kind": "oversize", "cases": [["atoms-runs", 99993]]}]
+                  {"kind": "oversize", "cases": [["atoms-runs", 99990]]}, {"kind": "oversize", "cases": [["atoms-runs", 99993]]},
+                  {"kind": "oversize", "cases": [["ensemble", m] for m in (2, 20, 21, 22, 30, 63, 200)] + [["ensemble-chains", c] for c in (31, 32, 40, 62, 63)]}]
         specs += [{"kind": "splitter", "examples": 300, "seed": seed * 1000 + 200 + k} for k in range(8)]
         specs += [{"kind": "unifier", "examples": 150, "seed": seed * 1000 + 300 + k} for k in range(8)]
     return specs
